@@ -103,7 +103,11 @@ fn random_value(r: &mut Rng, depth: usize) -> Value {
         0.0, -0.0, 1.0, -2.5, 0.1, 1.0 / 3.0, 5e-324, -5e-324, f64::MIN_POSITIVE, f64::MAX, f64::MIN, f64::INFINITY,
         f64::NEG_INFINITY, f64::NAN, 9007199254740993.0, 1e-300,
     ];
-    const STRS: [&str; 14] = ["", "a", " x ", "äb", "日本", "😀", "a\"b\\c", "/*", "//", "\n\t\r", "\u{0}", "(", "r#\"x\"#", "\u{2028}"];
+    // (the last ones: text that LOOKS like an escape sequence of some notation and must come back as that very text)
+    const STRS: [&str; 24] = [
+        "", "a", " x ", "äb", "日本", "😀", "a\"b\\c", "/*", "//", "\n\t\r", "\u{0}", "(", "r#\"x\"#", "\u{2028}", "\\u{202e}", "\\u{200b}x", "\\n", "\\x41", "&amp;", "%41",
+        "\\\\u{41}", "\u{202e}abc\u{202c}", "\u{200b}", "\\u202e",
+    ];
     match r.below(if depth == 0 { 8 } else { 10 }) {
         0 => Value::Int(*r.pick(&INTS)),
         1 => Value::Int(r.next() as i64),
@@ -239,7 +243,12 @@ fn main() {
     }
 
     // ---- B. contexts reachable through the API
-    let names = ["a", "b", "x", "", " ", "player.score", "$total", "a+b", "日本", "\"q\"", "math::pi", "0", "true", "f", "very_long_name_0123456789"];
+    // (among them names that are equal under some normalisation — zero padding, case, composed / decomposed accents,
+    // trailing blanks — and still different names)
+    let names = [
+        "a", "b", "x", "", " ", "player.score", "$total", "a+b", "日本", "\"q\"", "math::pi", "0", "true", "f", "very_long_name_0123456789", "x1", "x01", "x001", "X1", "é",
+        "e\u{301}", "a ", "A", "item10", "item010", "_", "variables", "without_builtin_functions",
+    ];
     let mut ctx_ok = 0u64;
     for i in 0..n_ctx {
         let mut c = Ctx::new();
@@ -322,6 +331,59 @@ fn main() {
         if e1 != e2 {
             report(format!("context/evaluates-differently: {} : {} vs {}", text, e1, e2));
             continue;
+        }
+        // every word of the serialized text itself is a perfectly good variable name: whatever the format uses as a
+        // key, marker or field name must not be confused with a variable of that name
+        if i % 4 == 0 {
+            let mut words: Vec<String> = Vec::new();
+            let mut cur = String::new();
+            let mut in_str = false;
+            for ch in text.chars() {
+                if ch == '"' {
+                    if !cur.is_empty() {
+                        words.push(std::mem::take(&mut cur));
+                    }
+                    in_str = !in_str;
+                } else if in_str || ch.is_alphanumeric() || ch == '_' || ch == '/' || ch == ':' || ch == '#' || ch == '$' {
+                    if ch != '\\' {
+                        cur.push(ch);
+                    }
+                } else if !cur.is_empty() {
+                    words.push(std::mem::take(&mut cur));
+                }
+            }
+            words.sort();
+            words.dedup();
+            let mut c2 = c.clone();
+            let taken: Vec<String> = sorted_vars(&c).iter().map(|(k, _)| k.clone()).collect();
+            let mut added = 0;
+            for (j, w) in words.iter().enumerate() {
+                if !taken.contains(w) && added < 16 {
+                    let _ = c2.set_value(w.clone(), Value::Int(1000 + j as i64));
+                    added += 1;
+                }
+            }
+            let t2 = if pretty { ron::ser::to_string_pretty(&c2, ron::ser::PrettyConfig::default()) } else { ron::ser::to_string(&c2) };
+            evals += 2;
+            if let Ok(t2) = t2 {
+                match ron::de::from_str::<Ctx>(&t2) {
+                    Ok(back2) => {
+                        let (a, b) = (sorted_vars(&c2), sorted_vars(&back2));
+                        let same = a.len() == b.len() && a.iter().zip(&b).all(|(p, q)| p.0 == q.0 && same_value(&p.1, &q.1));
+                        if !same || back2.are_builtin_functions_disabled() != off {
+                            report(format!(
+                                "context/variables-differ: variables named like the words of the serialized form; serialized {} : before {:?} (disabled={}) after {:?} (disabled={})",
+                                t2, a, off, b, back2.are_builtin_functions_disabled()
+                            ));
+                            continue;
+                        }
+                    },
+                    Err(e) => {
+                        report(format!("context/deserialize-fails: variables named like the words of the serialized form: {} : {}", t2, e));
+                        continue;
+                    },
+                }
+            }
         }
         ctx_ok += 1;
         if samples.len() < 8 {
